@@ -1,3 +1,4 @@
+pub mod defrag;
 pub mod errp;
 pub mod gen;
 pub mod guard;
